@@ -42,7 +42,8 @@ type Engine struct {
 	intrinsics         map[string]externalFn
 	prepOnce           sync.Once
 	Tier               string
-	SeqGo              bool // run go statements synchronously at the spawn point
+	SeqGo              bool     // run go statements synchronously at the spawn point
+	MapOrders          []string // functions (name substrings) whose small map ranges run in every order
 }
 
 // NewEngine prepares prog (already built) for interpretation.
@@ -400,8 +401,73 @@ func (i *interpreter) symStrSlice(x symStr, lo, hi value) value {
 	return nil
 }
 
-func (i *interpreter) mapRange(m *omap, t types.Type) iter {
-	return &omapIter{m: m}
+// mapRange iterates a map in insertion order, except in the functions a
+// harness names with //gosym:maporders: there a map with two or three live
+// entries is iterated in every order (a decision point with n! alternatives,
+// all feasible: Go leaves the order unspecified).
+func (i *interpreter) mapRange(fr *frame, m *omap, t types.Type) iter {
+	if i.ps == nil || i.ps.mapOrdersOff || m == nil || len(i.w.e.MapOrders) == 0 || fr == nil || fr.fn == nil {
+		return &omapIter{m: m}
+	}
+	name := fr.fn.String()
+	match := false
+	for _, s := range i.w.e.MapOrders {
+		if strings.Contains(name, s) {
+			match = true
+		}
+	}
+	if !match {
+		return &omapIter{m: m}
+	}
+	var live []int
+	for k := range m.keys {
+		if !m.dead[k] {
+			live = append(live, k)
+		}
+	}
+	if len(live) < 2 || len(live) > 3 {
+		return &omapIter{m: m}
+	}
+	perms := permutations(len(live))
+	v := mkVar(i.ps.freshName("maporder"), sortBV(64))
+	var alts []*Term
+	for j := range perms {
+		alts = append(alts, mkEq(v, mkBV(64, uint64(j))))
+	}
+	p := perms[i.ps.decideFree(alts, "maporder")]
+	i.ps.mapOrders++
+	it := &permIter{m: m}
+	for _, q := range p {
+		it.order = append(it.order, live[q])
+	}
+	return it
+}
+
+func permutations(n int) [][]int {
+	if n == 2 {
+		return [][]int{{0, 1}, {1, 0}}
+	}
+	return [][]int{{0, 1, 2}, {0, 2, 1}, {1, 0, 2}, {1, 2, 0}, {2, 0, 1}, {2, 1, 0}}
+}
+
+// permIter yields the entries that were live when the range began in a fixed
+// order; entries deleted during the iteration are skipped, entries added are
+// not produced (Go allows either).
+type permIter struct {
+	m     *omap
+	order []int
+	i     int
+}
+
+func (it *permIter) next() tuple {
+	for it.i < len(it.order) {
+		k := it.order[it.i]
+		it.i++
+		if k < len(it.m.dead) && !it.m.dead[k] {
+			return tuple{true, it.m.keys[k], it.m.vals[k]}
+		}
+	}
+	return tuple{false, nil, nil}
 }
 
 func (i *interpreter) goStmt(fr *frame, instr *ssa.Go, fn value, args []value) {
@@ -430,6 +496,7 @@ type PathSummary struct {
 	Inputs    []string
 	Steps     int64
 	Unknowns  int
+	MapOrders int // map-order decision points on the path
 }
 
 type Report struct {
@@ -811,6 +878,7 @@ func (w *Worker) runPath(prefix []Decision) (sum PathSummary, ps *pathState) {
 	sum.Covers = sortedKeys(ps.covers)
 	sum.Steps = ps.steps
 	sum.Unknowns = ps.unknowns
+	sum.MapOrders = ps.mapOrders
 	for _, in := range ps.inputs {
 		sum.Inputs = append(sum.Inputs, in.Name)
 	}
